@@ -8,7 +8,7 @@
     bmc-err <cc> <datagram hex>        -> same judgement, but the BMC refuses the request: it answers with completion
                                           code <cc> and does not execute it (Spec.BmcSession.stepRefused)
     bmc-state                          -> <phase> <first broken rule | none>
-    model <pref s|i|g> <emptyRx s|i> <closeGuard s|i> <noAuthRaises s|i> <ignore 0|1> <max_retries> <closes 1|2|c>
+    model <pref s|i|g> <emptyRx s|i> <closeGuard s|i> <noAuthRaises s|i> <resetSession s|i> <ignore 0|1> <max_retries> <closes 1|2|c>
           <user hex> <pw hex> <priv> <outSeq> <n> <sid0> <seq0> <act0 0|1> <rqSeq0> <att0 0|1> <auth0> <reply hex | silent>*
         -> <outcome> | <kind>:<datagram hex> … | <auth> <sid> <seq> <activated> <rqSeq> <attached> | <clean-up outcome | ->
           (Model.Session.lifecycle against the scripted replies; with <closes> = 2 close_session() is called a
@@ -18,12 +18,16 @@
           <max_retries> <lost datagram numbers, comma separated | ->
         -> <outcome> | <phase> <first broken rule | none> | <number of datagrams>
           (Model client against the Spec BMC behind a lossy network, all in Lean)
+    ka <stopFirst s|i> <e1 | e0 | c>*  -> per event: establish (e1: the handshake succeeded, e0: it failed) h<threads running
+                                          during the handshake>,r<threads running afterwards>; close r<…>
+                                          (Model.SessionKeepAlive: keep-alive threads over a history of calls)
     choose <pref s|i|g> <support>      -> <auth type> | none                 (Model.Session.chooseAuth)
     strongest <support> <implemented,…>-> <auth type> | none                 (Spec: strongest offered ∩ implemented)
 -/
 import PyIpmi.Base.Proto
 import PyIpmi.Model.Md5
 import PyIpmi.Model.Session
+import PyIpmi.Model.SessionKeepAlive
 import PyIpmi.Spec.BmcSession
 open PyIpmi PyIpmi.Proto PyIpmi.RmcpWire PyIpmi.Session
 
@@ -90,14 +94,15 @@ def handleC06 (ds : DState) (line : String) : DState × String :=
       | (st', .protocolError w) => ({ ds with st := st' }, "error " ++ w.name)
     | _, _ => (ds, "bad-op")
   | ["bmc-state"] => (ds, s!"{phaseName ds.st.phase} {badName ds.st.bad}")
-  | "model" :: pref :: er :: cg :: na :: ig :: mr :: closes :: user :: pw :: priv :: outSeq :: n :: sid0 :: seq0 :: act0 :: rq0 ::
+  | "model" :: pref :: er :: cg :: na :: rs :: ig :: mr :: closes :: user :: pw :: priv :: outSeq :: n :: sid0 :: seq0 :: act0 :: rq0 ::
       att0 :: auth0 :: replies =>
     match mr.toNat?, ofHex user, ofHex pw, priv.toNat?, outSeq.toNat?, n.toNat?, sid0.toNat?, seq0.toNat?, rq0.toNat?,
           auth0.toNat?, replies.mapM parseReply with
     | some mr, some user, some pw, some priv, some outSeq, some n, some sid0, some seq0, some rq0, some auth0, some replies =>
       let cfg : Cfg := { user := user, pw := pw, priv := priv, outSeq := outSeq, pref := prefOf pref,
                          ignoreLen := ig == "1", emptyRx := if er == "s" then .asShipped else .intended,
-                         maxRetries := mr, closeGuard := cg != "s", noAuthRaises := na != "s" }
+                         maxRetries := mr, closeGuard := cg != "s", noAuthRaises := na != "s",
+                         resetSession := rs != "s" }
       let c0 : Client := ⟨att0 == "1", ⟨auth0, sid0, seq0, act0 == "1", pw⟩, rq0⟩
       let r1 := lifecycle md5f scripted cfg n replies c0
       let (r, cl) : Result (List (Option (List Nat))) × String :=
@@ -123,6 +128,25 @@ def handleC06 (ds : DState) (line : String) : DState × String :=
         (0, Spec.BmcSession.init) (Client.fresh pw)
       (ds, s!"{r.outcome.tag} | {phaseName r.peer.2.phase} {badName r.peer.2.bad} | {r.sent.length}")
     | _, _, _, _, _, _, _, _, _, _, _, _ => (ds, "bad-op")
+  | "ka" :: sf :: evs =>
+    let stopFirst := sf != "s"
+    let rec go (k : KeepAlive.KA) : List String → Option (List String)
+      | [] => some []
+      | e :: es =>
+        let ev? : Option KeepAlive.Ev :=
+          if e == "e1" then some (.establish true) else if e == "e0" then some (.establish false)
+          else if e == "c" then some .close else none
+        match ev? with
+        | none => none
+        | some ev =>
+          let k' := KeepAlive.step stopFirst k ev
+          let tok := match ev with
+            | .establish _ => s!"h{(KeepAlive.enter stopFirst k).running.length},r{k'.running.length}"
+            | .close => s!"r{k'.running.length}"
+          (go k' es).map (tok :: ·)
+    (ds, match go KeepAlive.init evs with
+         | some l => if l.isEmpty then "-" else " ".intercalate l
+         | none => "bad-op")
   | ["choose", pref, sup] =>
     match sup.toNat? with
     | some sup =>
